@@ -194,8 +194,11 @@ class HistWorld(World):
 
     def _snapshot(self):
         sim = self.sim
-        with self.ctx.sut():
-            d = sim.Get_results(-1)
+        try:
+            with self.ctx.sut():
+                d = sim.Get_results(-1)
+        except SutError as e:
+            raise Violation("stored-iteration-unreadable", f"Get_results(-1) right after Save_Iter raised {e}", e.site)
         snap = {
             "state": simlib.get_state(sim),
             "algo": dict(self.algo),
